@@ -311,6 +311,10 @@ def apply_tweaks(root, tweaks):
     for tw in tweaks:
         if tw[0] == "ltype":
             define_type(root, tw)
+        if tw[0] == "case":
+            respell_symbols(root, tw)
+        if tw[0] == "apisym":
+            api_symbols(root, tw)
         if tw[0] != "inner":
             continue
         scheds = [s for s in root.walk(Schedule) if not isinstance(s, Routine)]
@@ -326,6 +330,53 @@ def apply_tweaks(root, tweaks):
                                             datatype=ArrayType(ScalarType(ScalarType.Intrinsic.REAL, prec), [bound]))
         sched.addchild(Assignment.create(ArrayReference.create(sym, [Literal("1", INTEGER_TYPE)]),
                                          Literal("0.0", ScalarType(ScalarType.Intrinsic.REAL, prec))))
+
+
+def respell_symbols(root, tw):
+    """["case", "all" | "some", seed, style]: every (a seeded half of the) symbol(s) of every table of the
+    tree gets a mixed-case name through `rename_symbol` (which refuses arguments, imports, containers ...:
+    those keep their names).  The symbols keep the spelling, the tables are keyed by the lower-cased name."""
+    import random
+    from psyclone.psyir.nodes import ScopingNode, Routine
+    from psyclone.psyir.symbols import RoutineSymbol
+    pick = random.Random(tw[2])
+    routines = {r.name.lower() for r in root.walk(Routine)}
+    for n in root.walk(ScopingNode):
+        tab = n.symbol_table
+        for k, s in enumerate(list(tab.symbols)):
+            if tw[1] != "all" and pick.random() < 0.5:
+                continue
+            if isinstance(s, RoutineSymbol) and s.name.lower() in routines:
+                # Routine.name is a separate attribute of the node: renaming its symbol through the table
+                # alone leaves the tree inconsistent (not a matter of copying)
+                continue
+            try:
+                tab.rename_symbol(s, c15_gen.respell(s.name, tw[3] + (k if tw[1] != "all" else 0)))
+            except Exception:   # pylint: disable=broad-except
+                pass
+
+
+def api_symbols(root, tw):
+    """["apisym", r, style]: `new_symbol` with mixed-case names in routine r (an integer used as the variable
+    of a new loop and as a subscript, a real assigned in the loop), as a transformation would create them"""
+    from psyclone.psyir.nodes import Routine, Reference, Assignment, Literal, Loop, BinaryOperation
+    from psyclone.psyir.symbols import DataSymbol, INTEGER_TYPE, REAL_TYPE
+    routines = root.walk(Routine)
+    if not routines:
+        return
+    rt = routines[tw[1] % len(routines)]
+    tab = rt.symbol_table
+    try:
+        ivar = tab.new_symbol(c15_gen.respell("icell", tw[2]), symbol_type=DataSymbol, datatype=INTEGER_TYPE)
+        tmp = tab.new_symbol(c15_gen.respell("tmp", tw[2] + 1), symbol_type=DataSymbol, datatype=REAL_TYPE)
+        body = [Assignment.create(Reference(tmp), BinaryOperation.create(
+            BinaryOperation.Operator.ADD, Reference(tmp), Literal("1.0", REAL_TYPE))),
+                Assignment.create(Reference(tmp), BinaryOperation.create(
+                    BinaryOperation.Operator.MUL, Reference(tmp), Reference(ivar)))]
+        rt.addchild(Loop.create(ivar, Literal("1", INTEGER_TYPE), Literal("4", INTEGER_TYPE),
+                                Literal("1", INTEGER_TYPE), body))
+    except Exception:   # pylint: disable=broad-except
+        pass
 
 
 def define_type(root, tw):
@@ -707,7 +758,7 @@ def gen_edit(ctx, rng, side, counter):
         used = {id(d) for _, s in ctx.syms.values() for d in sym_deps(s)}
         pref = [(i, s) for i, s in syms if id(s) in used]
         i, s = rng.choice(pref if pref and rng.random() < 0.7 else syms)
-        return ["rename", i, f"{s.name}_r{counter}"]
+        return ["rename", i, f"{s.name}_{rng.choice(['r', 'R', 'rN'])}{counter}"]
     if kindc == "setdeps":
         c = [(i, s) for i, s in syms if isinstance(s, DataSymbol) and not s.is_argument and not s.is_import
              and isinstance(s.datatype, (ArrayType, ScalarType)) and s.initial_value is None
@@ -724,10 +775,10 @@ def gen_edit(ctx, rng, side, counter):
             i, n = rng.choice(scopes)
             ints = int_scalars()
             if rng.random() < 0.3:
-                return ["addsym", i, f"gen{counter}", -1, [], "generic"]
+                return ["addsym", i, f"{rng.choice(['gen', 'genSym'])}{counter}", -1, [], "generic"]
             k = rng.choice(ints) if ints and rng.random() < 0.6 else -1
             b = [rng.choice(ints) for _ in range(rng.randint(0, 2))] if ints else []
-            return ["addsym", i, f"new{counter}", k, b, "data"]
+            return ["addsym", i, f"{rng.choice(['new', 'newVal', 'NEW'])}{counter}", k, b, "data"]
     if kindc == "removesym":
         c = []
         for i, s in syms:
@@ -902,6 +953,49 @@ CORPUS = [
 ]
 
 
+CASE_SOURCES = [
+    CORPUS[0][0], CORPUS[2][0], CORPUS[3][0],
+    # a function (return symbol), an import, a container-level kind and bound, nested loops and an if body
+    ("module cmod\n  use ext_mod, only: wp, ext_sub\n  implicit none\n  integer, parameter :: gk = 8, gn = 5\n"
+     "  real(kind=gk), dimension(gn) :: garr\ncontains\n  function f0(a, n) result(res)\n"
+     "    integer, parameter :: k = 8, m = 6\n    integer, parameter :: q = m + 2\n    integer, intent(in) :: n\n"
+     "    real(kind=wp), dimension(n), intent(inout) :: a\n    real(kind=k), dimension(m, q) :: u\n"
+     "    real(kind=k) :: x, res\n    integer :: i, j\n    x = 1.0_k\n    do i = 1, m\n      do j = 1, q\n"
+     "        u(i, j) = garr(1) * 0.5_gk + x\n      end do\n      if (n > q) then\n        x = x + real(q, kind=k)\n"
+     "      end if\n    end do\n    call ext_sub(u, n)\n    res = x\n  end function f0\n"
+     "  subroutine s1(b)\n    real(kind=gk), intent(inout) :: b\n    integer :: i\n    do i = 1, gn\n"
+     "      b = b + garr(i)\n    end do\n  end subroutine s1\nend module cmod\n"),
+]
+
+
+def case_family(full):
+    """SYSTEMATIC family for identifier case: for each source x class of the copied node x side, every renamable
+    symbol has a mixed-case name (given through rename_symbol / new_symbol) before the copy; after the copy up
+    to three mixed-case symbols of the edited side are renamed again.  -> resolved cases"""
+    out = []
+    classes = ["FileContainer", "Container", "Routine", "Loop", "Schedule", "IfBlock"]
+    k = 0
+    for src in CASE_SOURCES:
+        for cls in classes:
+            for side in ("orig", "copy"):
+                for style in (range(c15_gen.STYLES) if full else [k % c15_gen.STYLES]):
+                    k += 1
+                    tweaks = [["inner", k, "tmp0", True, True], ["apisym", k, style + 1], ["case", "all", 0, style]]
+                    ctx = Ctx(src, tweaks)
+                    rs = [i for i, n in sorted(ctx.nodes.values(), key=lambda t: t[0])
+                          if i < ctx.T and type(n).__name__ == cls]
+                    if not rs:
+                        continue
+                    r = rs[k % len(rs)] if cls != "Routine" else rs[0]
+                    from psyclone.psyir.nodes import ScopingNode
+                    owned = [s for n in ctx.node_by(r).walk(ScopingNode) for s in n.symbol_table.symbols]
+                    mixed = [s for s in owned if s.name != s.name.lower()]
+                    edits = [["rename", ctx.syms[id(s)][0] + (ctx.M if side == "copy" else 0), s.name + "_Ren"]
+                             for s in (mixed[k % 2:] + mixed[:k % 2])[:3]]
+                    out.append((src, tweaks, r, side, edits))
+    return out
+
+
 def corpus_case(entry):
     """resolve class / symbol names of a corpus entry into node and symbol numbers"""
     src, tweaks, cls, side, named = entry
@@ -1028,6 +1122,13 @@ def run(chk):
         src, tweaks, r, side, edits = corpus_case(entry)
         res = run_case(src, tweaks, r, side, edits=edits)
         handle(src, tweaks, r, side, res, True)
+    fam = case_family(chk.tier == "thorough")
+    stats["case_family"] = len(fam)
+    for src, tweaks, r, side, edits in fam:
+        if nviol[0] >= 3:
+            break
+        res = run_case(src, tweaks, r, side, edits=edits)
+        handle(src, tweaks, r, side, res, True)
     cdir = os.path.join(common.ROOT, "corpus", "C15")
     if os.path.isdir(cdir):
         for f in sorted(os.listdir(cdir)):
@@ -1042,7 +1143,8 @@ def run(chk):
         if nviol[0] >= 3:
             break
         if prog is None or j % 4 == 0:
-            prog = c15_gen.gen_program(rng)
+            # the first programs have every renamable symbol spelled in mixed case
+            prog = c15_gen.gen_program(rng, force_case="all" if j < 24 else None)
         src, tweaks = prog
         try:
             probe = Ctx(src, tweaks)
